@@ -17,7 +17,7 @@ from .. import bus, cover, gen, monitors
 LEVEL = 'exploration'
 JOBS = {'quick': 1, 'thorough': 16}
 REQUIRED_MONITORS = ('rotation_contract', 'frame_contract', 'rot_relations')
-REQUIRED_CLASSES = ('frame:collinear', 'frame:generic', 'triple:collinear-z', 'triple:collinear-int',
+REQUIRED_CLASSES = ('axis-length:unit', 'axis-length:almost-unit', 'frame:collinear', 'frame:generic', 'triple:collinear-z', 'triple:collinear-int',
                     'triple:collinear-moved', 'triple:coincident-middle', 'embedded:exchange-map',
                     'embedded:minimize')
 RULE = ('rotation cases: (axis class x axis-norm decade x angle class); frame cases: (triple class x scale '
@@ -80,6 +80,14 @@ def gen_axis(rng, cls):
         if not a.any():
             a[int(rng.integers(0, 3))] = 1.0
     decade = int(rng.integers(-6, 6))
+    r = rng.random()
+    if r < 0.08:
+        # already (as good as) normalised, or a length that differs from 1 only from the 4th..12th decimal on
+        a = a / np.linalg.norm(a)
+        return a, 'unit'
+    if r < 0.2:
+        a = a / np.linalg.norm(a) * (1.0 + float(rng.choice([-1, 1])) * 10.0 ** rng.uniform(-12, -3))
+        return a, 'almost-unit'
     a = a / np.linalg.norm(a) * 10.0 ** rng.uniform(decade, decade + 1)
     return a, decade
 
@@ -112,6 +120,8 @@ def run_rot(ctx, case):
         ctx.count('evaluations')
         ctx.hit('axis:' + acls)
         ctx.hit('angle:' + tcls)
+        if isinstance(decade, str):
+            ctx.hit('axis-length:' + decade)
         if not np.all(np.isfinite(R)):
             continue
         w = {'axis': axis, 'theta': th, 'theta2': th2}
